@@ -23,6 +23,7 @@
 #define OP_EMIT_MSG 4
 #define OP_EMIT_DEFAULT 5
 #define OP_FINI 6
+#define OP_REPLACE 7
 
 #define NREG (NS + 2)   /* table slots + new registration + fallback */
 #define R_NEW NS
@@ -108,6 +109,17 @@ void harness(void)
 		V_ASSERT(alive[i] && fin[i] == 0, "other registrations are not finalised");
 		V_ASSERT(c && c->arg == &alive[i], "other registrations keep resolving to their handler");
 	}
+#elif OP == OP_REPLACE
+	/* replacement through the command table itself (mpt_dispatch_set refuses ids in use) */
+	alive[R_NEW] = 1;
+	r = mpt_command_set(&d._d, id, h_event, &alive[R_NEW]);
+	if (target >= 0) {
+		MPT_STRUCT(command) *c = mpt_command_get(&d._d, id);
+		V_ASSERT(r >= 0, "replacing a registered handler succeeds");
+		V_ASSERT(fin[target] == 1 && !alive[target], "replaced handler gets exactly one end-of-life notification");
+		V_ASSERT(c && c->arg == &alive[R_NEW] && fin[R_NEW] == 0, "the id now resolves to the new, live handler");
+	}
+	for (i = 0; i < NS; i++) if (live0[i] && (int) i != target) V_ASSERT(alive[i] && fin[i] == 0, "other registrations untouched");
 #elif OP == OP_CLEAR
 	r = mpt_dispatch_set(&d, id, 0, 0);
 	if (target < 0) V_ASSERT(r < 0, "clearing an unregistered id is refused");
